@@ -34,7 +34,7 @@ for n in names:
                 for l in [x for x in p.stdout.splitlines() if x.startswith("  ")][:3]:
                     print("    " + l[:300])
     finally:
-        subprocess.run("git -C /repo checkout -- .", shell=True)
+        subprocess.run("git -C /repo checkout -- . && git -C /repo clean -fdq -- embedded-cli/src embedded-cli-macros/src", shell=True)
     json.dump(res, open(os.path.join(d, "result.json"), "w"), indent=1)
     print(n, "quiet" if all(r["exit"] == 0 for r in res.values()) else "ALARMS", {c: r["exit"] for c, r in res.items() if r["exit"]})
 sys.exit(1 if bad else 0)
